@@ -697,6 +697,41 @@ def apalache_stage(prop, module, inv, length, negative_inv=None, timeout=900, ci
     return st
 
 
+def tlaps_stage(prop, module, theorem, negative_edits=(), timeout=900):
+    """Unbounded proof with the TLA+ proof system: every obligation of spec/proofs/<module>.tla must be discharged; each
+    negative edit (old text, new text) seeds a design defect into a copy, and tlapm must then FAIL to prove it."""
+    import subprocess, shutil, re
+    st = StageResult(f"tlaps:{module}")
+    t0 = time.time()
+    src = open(os.path.join(vlib.SPEC, "proofs", module + ".tla")).read()
+
+    def run(text, tag):
+        wd = vlib.workdir(f"{prop}_tlaps_{module}_{tag}")
+        shutil.rmtree(os.path.join(wd, ".tlacache"), ignore_errors=True)
+        with open(os.path.join(wd, module + ".tla"), "w") as fh:
+            fh.write(text)
+        p = subprocess.run(["timeout", str(timeout), "tlapm", "--threads", "6", "--cleanfp", module + ".tla"], cwd=wd,
+                           stdout=subprocess.PIPE, stderr=subprocess.STDOUT, text=True)
+        m = re.search(r"All (\d+) obligations? proved", p.stdout)
+        return (int(m.group(1)) if m else None), p.stdout
+    n, out = run(src, "main")
+    if n is None:
+        raise vlib.ToolError(f"tlapm did not prove {module}:\n" + out[-2500:])
+    st.states += n
+    st.samples.append({"tlaps": module, "theorem": theorem, "obligations_proved": n})
+    for i, (old, new) in enumerate(negative_edits):
+        if old not in src:
+            raise vlib.ToolError(f"negative edit {i} of {module} does not apply")
+        nn, outn = run(src.replace(old, new, 1), f"neg{i}")
+        caught = nn is None and "obligations failed" in outn
+        st.negatives.append({"name": f"edit: {old.strip()} -> {new.strip()}", "expected": "unprovable", "violated": ["unprovable"] if caught else []})
+        if not caught:
+            raise vlib.ToolError(f"tlapm still proves {module} with the seeded defect {i}:\n" + outn[-1500:])
+    st.notes["unbounded"] = "proved for every batch size, every chunk size >= 1 and every validity/class assignment"
+    st.wall = time.time() - t0
+    return st
+
+
 def codec_trace_stage(prop, tier, seed):
     """impl -> spec for the decoder: structured transformations of well-formed encodings, every decision validated by TLC."""
     st = StageResult("trace:TraceCodec")
